@@ -11,3 +11,9 @@ pub use self::snap_obj::SnapObj;
 pub use self::traits::Protocol;
 pub use libtw2_gamenet_common::error;
 pub use libtw2_gamenet_common::error::Error;
+
+#[cfg(kani)]
+mod verif_kani {
+    use super::*;
+    include!(concat!(env!("LIBTW2_VERIF_HARNESS"), "/gamenet_ddnet.rs"));
+}
